@@ -112,3 +112,43 @@ def h_quic_entry(c, _):
     c.summary_override(QS + ".handle_packet", lambda ctx, slf, *a: None)
     out = c.call(M + ".handle_quic_packet", pkt, [], [], {}, True)
     c.ensure("no_raise", out.exc is None, kind="raises")
+
+
+QDI = "tlexport.quic.quic_dissector"
+
+
+# NOT REGISTERED: this contract is written but the dissector is outside what the engine decides in reasonable time
+# (about 10 CPU-hours of paths, and `int.from_bytes(datagram) == 0` over a symbolic-length datagram is refused).  It is kept
+# as the starting point for a later round; extract_quic_packet is listed as NOT under contract in C02/C03's evidence.
+def h_dissector(c, isserver, suite, fb):
+    """extract_quic_packet raises nothing for ANY datagram bytes, any guessed connection ID and any available header
+    protection keys (library primitives may reject their inputs), and it always consumes: the unparsed remainder it
+    leaves in the packet is a strict suffix of what it was given, or empty - so the caller's loop terminates"""
+    if c.native:
+        return
+    data = c.bytes("datagram", min_len=1, max_len=1500)
+    # the case split is on the two header-form / packet-type fields of the first byte (RFC 9000 17.2 / 17.3); all cases together cover every first byte
+    b0 = data[0]
+    if fb == "short":
+        c.assume(b0 < 128)
+    else:
+        c.assume(b0 >= 128)
+        c.assume((b0 // 16) % 4 == {"long_initial": 0, "long_0rtt": 1, "long_handshake": 2, "long_retry": 3}[fb])
+    dcid = c.bytes("guessed_dcid", max_len=20)
+    hp = {k: c.bytes(k, length=c.choice("hp_len", [16, 32])) for k in ("client_initial_hp",)}
+    hpv = hp["client_initial_hp"]
+    keys = {k: hpv for k in ("client_initial_hp", "server_initial_hp", "client_handshake_hp", "server_handshake_hp", "client_early_hp",
+                             "client_application_hp", "server_application_hp")}
+    if c.nondet("keys_missing"):
+        keys = {}
+    pkt = c.obj("tlexport.packet.Packet", tls_data=data, timestamp=1.0)
+    out = c.call(QDI + ".extract_quic_packet", in_packet=pkt, isserver=isserver, guessed_dcid=dcid, keys=keys, ciphersuite=(const(suite) if suite else None))
+    c.ensure("no_raise", out.exc is None, kind="raises")
+    if out.exc is not None:
+        return
+    pkts, same = out.value
+    c.ensure("returns_the_same_packet_object", same is pkt)
+    rest = c.get(pkt, "tls_data")
+    c.ensure("remainder_shorter", c.prove(len_(rest) < len_(data)))
+    c.cover("returned")
+
